@@ -7,6 +7,8 @@ def _nontrivial(op, out):
     toks = op.split()
     if toks[0] in ("and", "or"):
         return "n" in toks[2:] or any(t.startswith("E") for t in toks[2:])
+    if toks[0] == "lcall":
+        return " n" in op or "err:" in out
     if toks[0] == "lcmp":
         return "n" in toks[4:] or out.endswith("| n")
     if toks[0] in ("treeall", "ltreeall"):
@@ -23,7 +25,8 @@ PROP = dict(
                        "Octo.C11.table_strict_except_null_handlers", "Octo.C11.is_null_never_null",
                        "Octo.C11.den_sound", "Octo.C11.tree_kleene", "Octo.C11.filter_spec", "Octo.C11.filter_kleene", "Octo.C11.typecheckU_sound", "Octo.C11.sql_tree_kleene", "Octo.C11.cmp_typed_null",
                        "Octo.C11.cmp_typed_value", "Octo.C11.call_error_reached", "Octo.C11.C11_sql_refuted",
-                       "Octo.C11.C11_sql_partial",
+                       "Octo.C11.C11_sql_partial", "Octo.C11.maybe_pass_strict_null", "Octo.C11.eval_argP_null",
+                       "Octo.C11.table_params_nonnull",
                        "Octo.C11.C11_full"],
     nontrivial=_nontrivial,
     rule="ops: `and`/`or` over every operand list in {TRUE,FALSE,NULL}^k (k<=5 quick, k<=7 thorough) and over "
@@ -35,7 +38,10 @@ PROP = dict(
          "ill-typed variant for modelled bodies); `ltreeall`: logical.Expression trees (all of depth <=2 over c0,c1,TRUE,"
          "FALSE,NULL; sampled to depth 4/7) typed by the REAL logical typechecker, the assigned types printed and "
          "compared, evaluated on every record conforming to the column types; `lcmp`: the six comparisons over every "
-         "combination of Int / NULL|Int / NULL columns and literals through the real typechecker; `filter`: nodes.Filter over random changelogs (retractions, "
+         "combination of Int / NULL|Int / NULL columns and literals through the real typechecker; `lcall`: every "
+         "descriptor with declared argument types (and the ordering comparisons) applied through the real "
+         "FunctionExpression.Typecheck to columns typed NULL|matching|one or two non-matching types (the Maybe pass and "
+         "its TypeAssertion), holding NULL / a matching / a non-matching value, assertion types printed and compared; `filter`: nodes.Filter over random changelogs (retractions, "
          "watermarks, source errors). Built as real physical.Expression -> Materialize -> Evaluate. non-trivial = "
          "NULL or an error takes part in the line",
     exhaustive=dict(quick=True, thorough=True),
